@@ -64,3 +64,44 @@ func Frame(t *rapid.T) []byte {
 	}
 	return fr.Raw(typ, flags, stream, p)
 }
+
+// Interrupted draws a header block that is not finished by its first frame - HEADERS without
+// END_HEADERS carrying the first part of a well-formed request - followed by a frame that is not
+// the CONTINUATION the receiver must insist on (any type, unknown extension types included, on the
+// same or another stream), and sometimes by the CONTINUATION that would have completed the block.
+func Interrupted(t *rapid.T) []byte {
+	stream := rapid.SampledFrom([]uint32{1, 3, 5, 7}).Draw(t, "istream")
+	block := []byte{0x82, 0x87, 0x84, 0x41, 0x01, 'x'} // GET https / authority x
+	cut := rapid.IntRange(0, len(block)).Draw(t, "icut")
+	var flags byte
+	if rapid.Bool().Draw(t, "iend") {
+		flags |= 0x1
+	}
+	out := fr.Raw(1, flags, stream, block[:cut])
+	switch rapid.IntRange(0, 3).Draw(t, "ikind") {
+	case 0:
+		out = append(out, Frame(t)...)
+	case 1, 2: // extension frame types
+		typ := byte(rapid.SampledFrom([]int{10, 11, 0x0c, 0x10, 0x20, 0xbe, 0xff}).Draw(t, "itype"))
+		st := stream
+		if rapid.Bool().Draw(t, "iother") {
+			st = rapid.SampledFrom([]uint32{0, 3, 9}).Draw(t, "iost")
+		}
+		out = append(out, fr.Raw(typ, rapid.SampledFrom([]byte{0, 4, 0xff}).Draw(t, "iflags"), st, rapid.SliceOfN(rapid.Byte(), 0, 12).Draw(t, "ipay"))...)
+	default: // a known type, well-formed
+		switch rapid.IntRange(0, 3).Draw(t, "iknown") {
+		case 0:
+			out = append(out, fr.Raw(6, 0, 0, make([]byte, 8))...) // PING
+		case 1:
+			out = append(out, fr.Raw(8, 0, 0, []byte{0, 0, 1, 0})...) // WINDOW_UPDATE
+		case 2:
+			out = append(out, fr.Raw(0, 0, stream, []byte("x"))...) // DATA
+		default:
+			out = append(out, fr.Raw(9, 4, stream+2, block[cut:])...) // CONTINUATION of another stream
+		}
+	}
+	if rapid.Bool().Draw(t, "icont") {
+		out = append(out, fr.Raw(9, 4, stream, block[cut:])...)
+	}
+	return out
+}
